@@ -463,6 +463,18 @@ def local_proof(b, bi):
             tr = trace(b, t["args"][1])
             if tr.origin and tr.origin[0] == "agg" and tr.origin[1]["rv"]["ops"] and _min_with_len_of(b, tr.origin[1]["rv"]["ops"][0], root, bi):
                 return "range bound is min(len(slice), ..) of the same slice"
+        if k.startswith("call:index:std::ops::RangeTo<") or k.startswith("call:index:std::ops::RangeFrom<"):
+            # the count that std's own in-memory reader (io::Cursor, &[u8]) reported for a read into this very slice:
+            # both clamp to the destination's length (trusted base: the standard library)
+            root = _slice_root(b, t["args"][0])
+            tr = trace(b, t["args"][1])
+            if root is not None and tr.origin and tr.origin[0] == "agg" and tr.origin[1]["rv"]["ops"]:
+                ct = trace(b, tr.origin[1]["rv"]["ops"][0], passthrough_extra=("std::ops::Try::branch",))
+                if ct.origin and ct.origin[0] == "call" and any(s_[0] == "downcast" and s_[1] in ("Ok", "Continue") for s_ in ct.steps):
+                    rf = fn_of(ct.origin[2]) or {}
+                    sty = (rf.get("self_ty") or "")
+                    if rf.get("trait") == "std::io::Read" and rf.get("name") == "read" and (sty.startswith("std::io::Cursor<") or sty in ("&[u8]",)) and len(ct.origin[2]["args"]) == 2 and _slice_root(b, ct.origin[2]["args"][1]) == root and not _redefined_between(b, (root,), ct.origin[1], bi):
+                        return f"bound is the byte count std's {sty.split('<')[0]} reported for a read into this very slice (it clamps to the slice's length)"
         if k.startswith("call:index:std::ops::RangeFull"):
             return "[..] cannot fail"
         if k in ("call:result.expect", "call:result.unwrap") and t["args"]:
@@ -715,6 +727,7 @@ def r04_2(ctx):
                 scope.append(cb)
         n = 0
         by_min = 0
+        n_ok = 0
         for sb in scope:
             for bb, t in sb.calls():
                 k = kind_of_call(fn_of(t) or {"def": "", "name": ""}) or ""
@@ -734,8 +747,10 @@ def r04_2(ctx):
                         from_read = any(is_place(o) and trace(sb, o).origin and trace(sb, o).origin[0] == "call" and (fn_of(trace(sb, o).origin[2]) or {}).get("trait") == "std::io::Read" and (fn_of(trace(sb, o).origin[2]) or {}).get("name") == "read" and _slice_root(sb, trace(sb, o).origin[2]["args"][1]) == root for o in tr.origin[1]["rv"]["ops"])
                 if why and "min(len" in why:
                     by_min += 1
+                if why or from_read:
+                    n_ok += 1
                 ctx.ob(f"G6:slice-bound:{n}", bool(why) or from_read, site(sb, bb), (why or "bound is the length the source reported for a read into this very slice") if (why or from_read) else "slice bound of unknown provenance: neither min(buf.len(), ..) of the sliced buffer nor the source's reported read length")
-        ctx.ob("G6:prefix_size-is-min-with-buf.len", by_min >= 1, site(b), f"{n} slicing(s) of the caller's buffer, {by_min} bounded by min(buf.len(), ..)" if by_min >= 1 else f"{n} slicing(s) of the caller's buffer, {by_min} bounded by min(buf.len(), ..): the copy of the captured prefix is no longer limited to the caller's buffer")
+        ctx.ob("G6:prefix_size-is-min-with-buf.len", n >= 1 and n_ok == n, site(b), f"{n} slicing(s) of the caller's buffer, each bounded ({by_min} by min(buf.len(), ..))" if n >= 1 and n_ok == n else f"{n} slicing(s) of the caller's buffer, {n_ok} with a bound: the copy of the captured prefix is no longer limited to the caller's buffer")
     # G7: ArrayBuffer fields are written only by its own methods
     ab = [p for p, a in lib.adts.items() if a["crate"] == "xt" and a["kind"] == "struct" and any(f["ty"].startswith("[u8; ") for f in a["variants"][0]["fields"]) and sum(1 for f in a["variants"][0]["fields"] if f["ty"] == "usize") == 2]
     ctx.ob("G7:array-buffer-found", len(ab) == 1, "lib", f"fixed buffer type(s): {ab}")
@@ -1070,3 +1085,148 @@ def r04_4(ctx):
     # xt's own re-encoder strips UTF-16/32 BOMs before libyaml sees the stream (R07.4); the parser never re-reads
     pe = [b for b in lib.bodies if any((fn_of(t) or {}).get("name") == "yaml_parser_parse" for _, t in b.calls())]
     ctx.ob("single-parse-site", len(pe) == 1, "lib", f"{len(pe)} function(s) drive yaml_parser_parse")
+
+
+# --------------------------------------------------------------------------- raw marker bytes
+
+
+def _marker_size_table():
+    t = json.load(open(os.path.join(VERIF, "tables", "msgpack_marker_sizes.json")))
+    out = {}
+    for r in t["rows"]:
+        for v in range(r["from"], r["to"] + 1):
+            out[v] = (1 + (v & 0x1F)) if r["size"] == "1+low5" else r["size"]
+    return out
+
+
+def _first_byte_groups(b):
+    """{call terminator id: (call block, slice root, [u8 locals])}: the u8 locals of body b that are loaded from the
+    first byte of a slice (`*s.first()?`, `s[0]`), grouped by where the byte was obtained."""
+    groups = {}
+    for l in range(b.nargs + 1, len(b.raw["locals"])):
+        if b.local_ty(l) != "u8":
+            continue
+        ds = b.whole_defs(l)
+        if len(ds) != 1 or ds[0][2] != "assign" or ds[0][3]["rv"]["k"] != "use" or not is_place(ds[0][3]["rv"]["op"]):
+            continue
+        tr = trace(b, ds[0][3]["rv"]["op"])
+        if tr.origin and tr.origin[0] == "call" and (fn_of(tr.origin[2]) or {}).get("name") == "first" and (fn_of(tr.origin[2]) or {}).get("def", "").startswith("core::slice") and any(s_[0] == "downcast" and s_[1] == "Some" for s_ in tr.steps):
+            ct = tr.origin[2]
+            g = groups.setdefault(id(ct), (tr.origin[1], _slice_root(b, ct["args"][0]), []))
+            g[2].append(l)
+    return groups
+
+
+def _raw_use(b, l):
+    """Local l (a byte) is looked at directly (masked, compared, switched on), not only decoded by a marker table."""
+    for bi, idx, how in uses_of_local_(b, l):
+        if how == "stmt":
+            s_ = b.blocks[bi]["stmts"][idx]
+            if s_["k"] == "assign" and s_["rv"]["k"] == "binop":
+                return True
+            if s_["k"] == "assign" and s_["rv"]["k"] == "use" and not s_["p"]["pr"] and b.local_ty(s_["p"]["l"]) == "u8" and s_["p"]["l"] != l and _raw_use(b, s_["p"]["l"]):
+                return True
+        elif how == "switch":
+            return True
+    return False
+
+
+def uses_of_local_(b, l):
+    from model import uses_of_local
+
+    return uses_of_local(b, l)
+
+
+def raw_marker_findings(b, table):
+    """For every group of first-byte locals of b that is used raw: run the interval analysis once per byte value
+    0..=255 with the byte pinned, and look at every `&s[X..]` advance of the slice the byte came from: where X is a
+    single known number although no sizing call on that slice is reachable for this byte, it must be the size the
+    marker table gives for the byte. Returns (n_groups, n_values_on_raw_paths, [(line, byte, got, want)])."""
+    import ival
+
+    bad = []
+    n_groups = 0
+    n_vals = 0
+    for gid, (cbb, sroot, locals_) in _first_byte_groups(b).items():
+        if sroot is None or not any(_raw_use(b, l) for l in locals_):
+            continue
+        n_groups += 1
+        adv = []
+        delegates = []
+        for bb, t in b.calls():
+            f = fn_of(t) or {}
+            if f.get("trait") in ("std::ops::Index", "std::ops::IndexMut") and len(t["args"]) == 2 and _slice_root(b, t["args"][0]) == sroot:
+                rt = trace(b, t["args"][1])
+                if rt.origin and rt.origin[0] == "agg" and rt.origin[1]["rv"].get("adt", "").endswith("RangeFrom") and rt.origin[1]["rv"]["ops"]:
+                    adv.append((bb, rt.origin[1]["rv"]["ops"][0], t.get("line")))
+            if f.get("local") and any(is_place(a) and _slice_root(b, a) == sroot for a in t["args"]):
+                delegates.append(bb)
+        adv_blocks = [a[0] for a in adv]
+        # the sizing calls that feed each advance: those that reach it without passing another advance
+        feeds = {}
+        for bb, _, _ in adv:
+            others = [x for x in adv_blocks if x != bb]
+            feeds[bb] = [d for d in delegates if bb in b.reachable_from(d, removed_nodes=others)]
+        for v in range(256):
+            iv = ival.Interval(b, assume={l: ((v, v),) for l in locals_})
+            for bb, xop, line in adv:
+                # the size may be chosen on several arms (`let size = match .. { fast => 1 + (b & 31), _ => call(..)? }`):
+                # each arm's value is judged where it is assigned
+                cands = []
+                xt = trace(b, xop)
+                if xt.origin and xt.origin[0] == "multi" and all(s_[0] == "use" for s_ in xt.steps):
+                    m_ = xt.origin[1]
+                    for db, idx, kind, payload in b.whole_defs(m_):
+                        if kind != "assign":
+                            continue
+                        st_ = iv.state_after(db, idx)
+                        if st_ is None:
+                            continue
+                        cands.append((st_.get(m_), payload.get("line", line)))
+                else:
+                    if any(d in iv.entry or d in iv.threaded for d in feeds[bb]):
+                        continue  # for this byte the advance is (also) sized by a call on the slice
+                    x0 = iv.at_call(bb, xop)
+                    if x0 != ():
+                        cands.append((x0, line))
+                for x, ln in cands:
+                    if x and len(x) == 1 and x[0][0] == x[0][1]:
+                        n_vals += 1
+                        want = table.get(v)
+                        if want != x[0][0]:
+                            bad.append((ln, v, x[0][0], want))
+    return n_groups, n_vals, bad
+
+
+@rule("R04.7", 1, "a MessagePack value that the slice-mode size calculator sizes from its raw first byte (a fast path that does not decode the marker) gets exactly the size the format defines for that byte, for every one of the 256 byte values that can reach the fast path", ["C04", "C06", "C02", "C03"])
+def r04_7(ctx):
+    import r_c18
+
+    lib = ctx.lib
+    sccs, _ = r_c18._sccs(lib)
+    ctx.need(sccs, "size calculator (recursive component) not found")
+    table = _marker_size_table()
+    scope = []
+    for fid in sccs[0]:
+        for b in lib.bodies:
+            if r_c18._root_of(lib, b).id == fid and b not in scope:
+                scope.append(b)
+    total_groups = 0
+    for b in scope:
+        ng, nv, bad = raw_marker_findings(b, table)
+        total_groups += ng
+        if ng:
+            first = bad[0] if bad else None
+            ctx.ob(f"raw-marker-sizes:{b.name}", not bad, site(b, line=first[0] if first else None),
+                   f"{ng} raw first-byte fast path(s): the size computed for each of the {nv} (byte, path) cases equals the marker table's" if not bad else
+                   f"marker byte {first[1]:#04x} is sized {first[2]} on a raw-byte fast path; MessagePack defines {first[3] if first[3] is not None else 'no size determined by the marker alone'} for it ({len(bad)} byte value(s) disagree): the value is cut at the wrong byte")
+    ctx.ob("raw-byte-paths-examined", True, site(scope[0]), f"{total_groups} raw first-byte fast path(s) in the size calculator ({len(scope)} bodies)", trivial=total_groups == 0)
+    # positive control: the same analysis flags the wrong mask in the control crate
+    ctl = ctx.facts.controls
+    if ctl:
+        cb = [x for x in ctl.bodies if x.name == "raw_marker_fast_path"]
+        if cb:
+            ng, nv, bad = raw_marker_findings(cb[0], table)
+            ctx.ob("control:raw-marker-sizes", ng == 1 and len(bad) == 31, "tables/controls/src/lib.rs", f"control fast path with a too-wide fixstr mask: {len(bad)} byte value(s) flagged (negative fixints 0xe1..=0xff; 0xe0 happens to get size 1)", trivial=True)
+        else:
+            ctx.ob("control:raw-marker-sizes", False, "tables/controls/src/lib.rs", "control function raw_marker_fast_path not found")
